@@ -8,6 +8,7 @@ import gens
 FAMILIES = ['mixture', 'component']
 BRIDGES = ['br_act_', 'br_pp_', 'br_vp_', 'br_to_molar_']
 PROPS_V = 'Props/C04.v'
+EXTRA_TARGETS = ['Model/NumCheck.vo']
 BUDGET = {'quick': 1500, 'thorough': 30000}
 ORACLE_RULE = ('8 built-in + synthetic mixtures (NRTL with one/two alphas, with/without a12,a21, zero parameters; UNIQUAC) x mole '
                'fraction in (0,1) x T 273..400 K; Gibbs-Duhem by central differences, pure-end limits, Raoult, p = x gamma Psat, basis independence; '
@@ -97,6 +98,14 @@ def oracle(rng, tier):
             g = calculate_activity_coefficients(T, z, pv.Composition(p=x, type='molar'), 'NRTL')
             yield {'kind': 'nrtl_raoult', 'case': {'mixture': gens.describe_mixture(z), 'T': T, 'x': x}, 'ok': g[0] == 1 and g[1] == 1,
                    'detail': 'gamma = %r with vanishing NRTL parameters' % (g,)}
+
+
+def correspondence(tier, seed):
+    import corr_numeric
+    budget = {'thermo': 60}
+    if tier == 'thorough':
+        budget = {k: v * 12 for k, v in budget.items()}
+    return corr_numeric.run(seed, budget, nmax=30 if tier == 'quick' else 200, tag='C04')
 
 
 def replay(rep):
